@@ -272,7 +272,7 @@ def enum_shard(st, shard, nshards, payload):
                 masks = masks_of(K, F)
                 cls = classify(M, masks)
                 inp = {'K': K, 'F': F, 'naming': naming, 'how': idx % 6,
-                       'fshape': ('list-set', 'list-frozenset', 'list-set-many-out', 'tuple-set', 'list-set-out')[(Fi + idx) % 5]}
+                       'fshape': ('list-set', 'list-frozenset', 'list-set-many-out', 'tuple-set', 'list-set-out', 'set-frozenset', 'frozenset-frozenset')[(Fi + idx) % 7]}
                 st.evaluations += 1
                 st.bump('F class: ' + cls)
                 if cls == 'fair and unfair states' or cls.startswith('fair and unfair paths'):
@@ -289,7 +289,7 @@ def enum_shard(st, shard, nshards, payload):
                         if (gi + fi + idx) % payload['mc_stride']:
                             continue
                         inp = {'K': K, 'F': F, 'f': g, 'checker': checker, 'naming': naming, 'how': idx % 6,
-                               'fshape': ('list-set', 'list-set-many-out', 'tuple-frozenset')[(gi + fi) % 3]}
+                               'fshape': ('list-set', 'list-set-many-out', 'tuple-frozenset', 'set-frozenset', 'frozenset-frozenset')[(gi + fi) % 5]}
                         st.evaluations += 1
                         if F is not None and fm.temporal_count(g) and \
                                 classify(M, masks_of(K, F)).startswith('fair and unfair'):
@@ -332,7 +332,7 @@ def random_shard(st, shard, nshards, payload):
         base = {'K': K, 'F': F, 'naming': draw(hs.sampled_from(['int', 'str', 'tuple', 'mixed'])),
                 'how': draw(hs.integers(0, 5)),
                 'fshape': draw(hs.sampled_from(['list-set', 'list-set', 'list-frozenset', 'tuple-set', 'tuple-frozenset', 'list-set-out',
-                                                'set-frozenset', 'dict-values', 'list-set-dup', 'list-set-many-out', 'list-set-many-out'])),
+                                                'set-frozenset', 'frozenset-frozenset', 'dict-values', 'list-set-dup', 'list-set-many-out', 'list-set-many-out'])),
                 'again': draw(hs.integers(0, 3)) == 0,
                 'extra_labels': draw(hs.lists(hs.tuples(hs.integers(0, 5), hs.integers(0, 10)).map(list), min_size=1, max_size=4))
                 if draw(hs.integers(0, 2)) == 0 else None}
